@@ -115,10 +115,7 @@ def _run(ctx):
             if not ios:
                 continue
             code_term = ios[0][-1]
-            val = None
-            for t, v in p.cons:
-                if t == code_term:
-                    val = v
+            val = util.scrutinee_constraint(p, code_term)
             if not isinstance(val, int):
                 # invalid code path: must be an error
                 ctx.ob("C06.dispatch", "invalid code", is_agg(p.ret, None, 'Err'),
@@ -179,10 +176,7 @@ def _run(ctx):
             if not ios:
                 continue
             code_term = ios[0][-1]
-            codeval = None
-            for t, v in p.cons:
-                if t == code_term:
-                    codeval = v
+            codeval = util.scrutinee_constraint(p, code_term)
             if not isinstance(codeval, int):
                 continue    # invalid code: error path (C19)
             name = [n for n, c in st_codes.items() if c == codeval][0]
